@@ -132,6 +132,23 @@ fn one_voice(ctx: &mut Ctx, env: &Env, rng: &mut Rng, base: &Engine, rv: &RefVoi
             if k == 1 {
                 continue;
             }
+            // a stream without multi-space weights has no voicing: its own threshold (also the
+            // corner values 0 and 1) changes nothing at all and never produces the no-data marker
+            for tk in [1.0, 0.0, rng.f64()] {
+                let mut e = base.clone();
+                e.condition.set_msd_threshold(1, th);
+                e.condition.set_msd_threshold(k, tk);
+                if let Ok(r) = trajectories(&e, labels.clone()) {
+                    let nodata = r.spectrum.iter().flatten().chain(r.lpf.iter().flatten()).any(|x| *x == NODATA);
+                    if nodata || !bits_eq2(&r.spectrum, &base_run.spectrum) || !bits_eq2(&r.lpf, &base_run.lpf) || !bits_eq2(&r.lf0, &base_run.lf0) {
+                        ctx.violation(
+                            "threshold-of-a-stream-without-voicing-changed-a-trajectory",
+                            d(J::obj().set("stream", k).set("threshold", tk).set("no_data_marker_in_non_msd_stream", nodata)),
+                        );
+                        return;
+                    }
+                }
+            }
             let mut e = base.clone();
             e.condition.set_msd_threshold(1, th);
             let tk = match rng.below(4) {
@@ -207,6 +224,99 @@ pub fn run(ctx: &mut Ctx) {
         match load_synthetic(&env, &o, rng) {
             Ok((e, rv)) => one_voice(ctx, &env, rng, &e, &rv, &format!("synthetic[{}]", o.describe())),
             Err(e) => ctx.inconclusive(&e),
+        }
+    });
+
+    // several voices: the *interpolated* voicing weight decides
+    let bundled_voice = std::sync::Arc::new(jbonsai::model::load_htsvoice_file(&env.bundled_path).expect("bundled loads"));
+    let n = ctx.n(48, 2000);
+    ctx.run_cases("multi-voice", n, false, |ctx, rng, idx| {
+        use crate::env::{dyadic_weights, engine_from_voices};
+        let nv = rng.range(2, 3);
+        let mut voices = vec![bundled_voice.clone()];
+        let mut descr = String::from("bundled");
+        if idx % 2 == 0 {
+            for _ in 1..nv {
+                let st = rng.uniform(0.2, 0.6);
+                let bytes = voicegen::perturb(&env.bundled_bytes, rng, st);
+                let p = env.voice_file(&bytes);
+                let v = jbonsai::model::load_htsvoice_file(&p);
+                env.remove(&p);
+                match v {
+                    Ok(v) => voices.push(std::sync::Arc::new(v)),
+                    Err(_) => return,
+                }
+            }
+            descr.push_str("+perturbed");
+        } else {
+            voices.clear();
+            let o = VoiceOpts::random(rng);
+            for _ in 0..nv {
+                let spec = voicegen::generate(&o, &env.pool, rng);
+                let p = env.voice_file(&voicegen::write(&spec));
+                let v = jbonsai::model::load_htsvoice_file(&p);
+                env.remove(&p);
+                match v {
+                    Ok(v) => voices.push(std::sync::Arc::new(v)),
+                    Err(_) => return,
+                }
+            }
+            descr = format!("{}x generated[{}]", nv, o.describe());
+        }
+        let Ok(mut e) = engine_from_voices(voices.clone()) else {
+            ctx.violation("engine-construction", J::from(descr.clone()));
+            return;
+        };
+        let w = dyadic_weights(rng, voices.len(), idx % 3 == 0);
+        if e.condition.get_interporation_weight_mut().set_parameter(1, &w).is_err() {
+            ctx.violation("valid-weights-rejected", J::from(descr.clone()));
+            return;
+        }
+        let nstate = e.voices.global_metadata().num_states;
+        let labels = env.corpus.random_utterance(rng, 2, 8);
+        // interpolated weight per state from the per-voice Gaussians
+        let mut weights = Vec::new();
+        for l in &labels {
+            for s in 0..nstate {
+                let terms: Vec<f64> = voices.iter().zip(&w).map(|(v, wv)| wv * v.stream_models[1].stream_model.get_parameter(s + 2, l).msd.unwrap_or(0.0)).collect();
+                weights.push(terms.iter().sum::<f64>());
+            }
+        }
+        let mut flips = 0;
+        let mut prev: Option<Vec<bool>> = None;
+        for th in [0.0, 0.1, 0.2, 0.35, 0.5, 0.65, 0.8, 0.9, 1.0] {
+            e.condition.set_msd_threshold(1, th);
+            let Ok(run) = trajectories(&e, labels.clone()) else {
+                ctx.violation("synthesize-err", J::from(descr.clone()));
+                return;
+            };
+            let fs = frame_states(&run.durations);
+            let voiced: Vec<bool> = run.lf0.iter().map(|f| f[0] != NODATA).collect();
+            if fs.len() != voiced.len() {
+                ctx.violation("shape", J::from(descr.clone()));
+                return;
+            }
+            for (t, s) in fs.iter().enumerate() {
+                let wgt = weights[*s];
+                if (wgt - th).abs() < 1e-9 {
+                    continue; // blended weight within rounding of the threshold: not judged
+                }
+                if voiced[t] != (wgt > th) {
+                    ctx.violation(
+                        "voiced-iff-interpolated-weight-exceeds-threshold",
+                        J::obj().set("voices", descr.clone()).set("f0_weights", fvec(&w, 8)).set("threshold", th).set("frame", t).set("state", *s).set("interpolated_weight", wgt).set("voiced", voiced[t]),
+                    );
+                    return;
+                }
+            }
+            if let Some(p) = &prev {
+                flips += p.iter().zip(&voiced).filter(|(a, b)| a != b).count();
+            }
+            prev = Some(voiced);
+            ctx.count("frames_checked", fs.len() as f64);
+        }
+        if flips > 0 && w.iter().filter(|x| **x != 0.0).count() >= 2 {
+            ctx.nontrivial(mix(&[21, hash_str(&descr), hash_str(&format!("{:?}", w)), flips as u64]));
         }
     });
 
